@@ -17,10 +17,14 @@ package verifharness
 //   v2.surplusdebt  English auctions switched off in the app's liquidation whitelisting: the surplus trigger
 //                   takes its lot from the collector (coin movement + net-fee decrease) and then
 //                   CreateLockedVault refuses the auction (liquidate.go:210-214)
-//   v2.limitbid     two limit bids wait at the same premium; the first one closes the auction (transfers,
-//                   burn, auction and locked vault deleted), the second one is then placed on the stale
-//                   auction and fails (bid.go:27-29): the closure of that auction reports failure after all
-//                   the writes of the first bid
+//   v2.limitbid     two limit bids wait at the same premium of an auction whose collateral is worth less than
+//                   its debt, and the app reserve is tiny: the first (a quarter of the debt) is filled
+//                   (collateral out, user bid, auction and limit bid updated); the second (twice the debt),
+//                   placed on the auction as the first one left it (fixes/C10-F6), runs out of collateral and
+//                   fails when the app reserve cannot cover the shortfall (WithdrawAppReserveFundsFn,
+//                   liquidate.go): the closure of that auction reports failure after all the writes of the
+//                   first bid.  (Before fixes/C10-F6 the failing second bid was the one placed on the stale
+//                   copy of an auction the first bid had closed - known finding C10-F6.)
 //   v2.auction      an English (surplus) auction with a bid is past its end time and the app has no
 //                   token-mint record: CloseEnglishAuction moves the lot collector -> auction module ->
 //                   bidder and the bid to the token-mint module, and then BurnTokensForApp fails
@@ -293,13 +297,14 @@ func c15PrepTwoLimitBids(t *testing.T, a *chain.App, ctx sdk.Context, e *c15Env)
 		return ctx, "no-discounted-auction"
 	}
 	debt := first.DebtToken
-	c, err, _ := execMsg(a, ctx, &liqV2types.MsgAppReserveFundsRequest{AppId: first.AppId, AssetId: first.DebtAssetId, TokenQuantity: sdk.NewCoin(debt.Denom, sdk.NewInt(5990000)), From: e.user1.String()})
+	c, err, _ := execMsg(a, ctx, &liqV2types.MsgAppReserveFundsRequest{AppId: first.AppId, AssetId: first.DebtAssetId, TokenQuantity: sdk.NewCoin(debt.Denom, sdk.NewInt(1000)), From: e.user1.String()})
 	if err != nil {
 		t.Logf("c15_reserve: %v", err)
 	}
 	log = append(log, "reserve:"+c)
+	// the store lists addrN(145) before addrN(144) (by address string): a quarter of the debt is bid first, then twice the debt
 	for i, who := range []sdk.AccAddress{addrN(144), addrN(145)} {
-		amt := debt.Amount.MulRaw(2).AddRaw(int64(i))
+		amt := []sdk.Int{debt.Amount.MulRaw(2), debt.Amount.QuoRaw(4)}[i]
 		fund(t, a, ctx, who, sdk.NewCoins(sdk.NewCoin(debt.Denom, amt)))
 		c, err, _ = execMsg(a, ctx, &auctionsV2types.MsgDepositLimitBidRequest{CollateralTokenId: first.CollateralAssetId, DebtTokenId: first.DebtAssetId,
 			PremiumDiscount: premium, Bidder: who.String(), Amount: sdk.NewCoin(debt.Denom, amt)})
@@ -312,8 +317,9 @@ func c15PrepTwoLimitBids(t *testing.T, a *chain.App, ctx sdk.Context, e *c15Env)
 	return ctx, strings.Join(log, ",")
 }
 
-// what the closure of LimitOrderBid runs for one auction (auctions.go:541-607): the bids waiting at the
-// auction's premium are placed one after the other on the auction AS READ BEFORE THE LOOP
+// what the closure of LimitOrderBid runs for one auction (auctions.go, after fixes/C10-F6 and fixes/C10-F5): the
+// bids waiting at the auction's premium are placed one after the other, each on the auction as the previous one
+// left it; a bid that closed the auction (its locked vault is gone) ends the closure
 func c15LimitBidStep(a *chain.App, ctx sdk.Context, id uint64) error {
 	au, err := a.NewaucKeeper.GetAuction(ctx, id)
 	if err != nil || !au.CollateralTokenOraclePrice.GT(au.CollateralTokenAuctionPrice) {
@@ -325,14 +331,19 @@ func c15LimitBidStep(a *chain.App, ctx sdk.Context, id uint64) error {
 		return nil
 	}
 	for _, b := range bids {
-		addr, _ := sdk.AccAddressFromBech32(b.BidderAddress)
-		if _, err := a.NewaucKeeper.PlaceDutchAuctionBid(ctx, au.AuctionId, addr.String(), b.DebtToken, au, true); err != nil {
-			return err
-		}
-		// (the bookkeeping of the limit-bid records that follows has no error path)
-		if b.DebtToken.Amount.Equal(au.DebtToken.Amount) {
+		if _, found := a.NewliqKeeper.GetLockedVault(ctx, au.AppId, au.LockedVaultId); !found {
 			return nil
 		}
+		cur, err := a.NewaucKeeper.GetAuction(ctx, id)
+		if err != nil {
+			return err
+		}
+		addr, _ := sdk.AccAddressFromBech32(b.BidderAddress)
+		if _, err := a.NewaucKeeper.PlaceDutchAuctionBid(ctx, cur.AuctionId, addr.String(), b.DebtToken, cur, true); err != nil {
+			return err
+		}
+		// (the bookkeeping of the limit-bid records that follows charges the amount of the user bid just created,
+		// which is never more than the limit bid holds: no reachable error path)
 	}
 	return nil
 }
